@@ -38,7 +38,8 @@ impl SN for f64 {
         f64::NAN
     }
     fn key(&self) -> i64 {
-        if self.is_nan() {
+        // the float's own test, not `MaybeNan::is_nan` (the code under test)
+        if Self::is_nan(*self) {
             i64::MIN
         } else {
             (*self + 0.0).to_bits() as i64
@@ -61,7 +62,8 @@ impl SN for f32 {
         f32::NAN
     }
     fn key(&self) -> i64 {
-        if self.is_nan() {
+        // the float's own test, not `MaybeNan::is_nan` (the code under test)
+        if Self::is_nan(*self) {
             i64::MIN
         } else {
             (*self + 0.0).to_bits() as i64
@@ -130,7 +132,7 @@ where
 {
     let shape = a.shape().to_vec();
     let desc = || format!("{} {} shape {:?} strides {:?} content {:?}", A::NAME, tag, shape, a.strides(), logical);
-    let kept: Vec<&A> = logical.iter().filter(|x| !x.is_nan()).collect();
+    let kept: Vec<&A> = logical.iter().filter(|x| x.key() != i64::MIN).collect();
     let want = sorted(kept.iter().map(|x| x.key()).collect());
     let mut obs: Vec<i64> = Vec::new();
     // fold_skipnan
@@ -230,8 +232,10 @@ where
                     if j >= flat.len() {
                         break;
                     }
-                    let w = sorted(lane.iter().map(|&i| logical[i].key()).filter(|k| *k != i64::MIN).collect());
-                    lx.check(sorted(flat[j].clone()) == w, "C14/fold-axis-skipnan", || format!("fold_axis_skipnan axis {} lane {} saw {:?}, expected {:?}, on {}", axis, j, flat[j], w, desc()));
+                    // the plain per-axis fold combines the elements of a lane in index order, and the fold
+                    // function need not be commutative: the sequence, not just the multiset, must match
+                    let w: Vec<i64> = lane.iter().map(|&i| logical[i].key()).filter(|k| *k != i64::MIN).collect();
+                    lx.check(flat[j] == w, "C14/fold-axis-skipnan", || format!("fold_axis_skipnan axis {} lane {} combined the elements in the order {:?}, the lane without its missing values is {:?}, on {}", axis, j, flat[j], w, desc()));
                 }
             }
             Err(m) => lx.fail("C14/panic", || format!("fold_axis_skipnan panicked: {} on {}", m, desc())),
@@ -256,7 +260,7 @@ where
     let lanes = lanes_flat(shape, axis);
     // references first (outside the exploration; middle pivots)
     let refs: Vec<Result<A, String>> = lanes.iter().map(|lane| {
-        let kept: Vec<A> = lane.iter().map(|&k| logical[k].clone()).filter(|x| !x.is_nan()).collect();
+        let kept: Vec<A> = lane.iter().map(|&k| logical[k].clone()).filter(|x| x.key() != i64::MIN).collect();
         plain_ref(&kept, q, i)
     }).collect();
     lx.explore(mode, |lx| {
